@@ -299,6 +299,8 @@ func vfc10RunFixture(t *testing.T, r *vfkit.Run, c int, rng *rand.Rand, nReq int
 			for rep := 0; rep < 2; rep++ {
 				tune := vfc10Tune(rng, st)
 				lazyBefore := testutil.ToFloat64(st.metrics.lazyExpandedPostingsCount)
+				// a crash of the store while answering is reported by vcheck with this line as witness
+				fmt.Printf("VF-INFLIGHT C10 case=%d store={%s} %s %s [%d,%d] skipChunks=%v\n", c, cfgs[si].String(), tune, vfc07MatchersString(rq.ms), rq.mint, rq.maxt, rq.skip)
 				srv, err, timedOut := vfc07Call(st, req)
 				if timedOut {
 					r.Inconclusive("a Series call exceeded the 3 minute deadline")
